@@ -203,8 +203,51 @@ def run_corpus(job):
     return ('corpus', os.path.relpath(d, REPO), outcome, v, st, {'dir': d})
 
 
+# ---- unity builds: number of sources x unity_size x ways in which another target consumes the objects -------------
+def unity_cases():
+    out = []
+    for n in range(1, 10):
+        for usize in (2, 4):
+            for how in ('both', 'extract_all', 'extract_one', 'whole'):
+                out.append((n, usize, how))
+    return out
+
+
+def run_unity(job):
+    from verif import mesonproc as mp
+    idx, n, usize, how = job
+    root = os.path.join(scratch_root(), 'c04u.%d' % os.getpid())
+    shutil.rmtree(root, ignore_errors=True)
+    files = {'main.c': 'int f0(void); int main(void) { return f0(); }\n'}
+    for i in range(n):
+        files['s%d.c' % i] = 'int f%d(void) { return %d; }\n' % (i, i)
+    srcs = ', '.join("'s%d.c'" % i for i in range(n))
+    L = ["project('u', 'c')"]
+    if how == 'both':
+        L.append("lib = both_libraries('foo', %s)" % srcs)
+        L.append("executable('app', 'main.c', link_with: lib)")
+    elif how == 'extract_all':
+        L.append("lib = static_library('foo', %s)" % srcs)
+        L.append("executable('app', 'main.c', objects: lib.extract_all_objects(recursive: false))")
+    elif how == 'extract_one':
+        L.append("lib = static_library('foo', %s)" % srcs)
+        L.append("executable('app', 'main.c', objects: lib.extract_objects(%s))" % srcs)
+    else:
+        L.append("lib = static_library('foo', %s)" % srcs)
+        L.append("shared_library('bar', 'main.c', link_whole: lib)")
+    files['meson.build'] = '\n'.join(L) + '\n'
+    mp.write_tree(root, files)
+    args = ['-Dunity=on', '-Dunity_size=%d' % usize]
+    res = mp.run_meson(['setup', 'b'] + args, root)
+    outcome, v, st = judge_setup(res, os.path.join(root, 'b'))
+    shutil.rmtree(root, ignore_errors=True)
+    return ('unity', 'n=%d unity_size=%d %s' % (n, usize, how), outcome, v, st, {'files': files, 'args': args})
+
+
 def dispatch(job):
     kind = job[0]
+    if kind == 'unity':
+        return run_unity(job[1:])
     if kind == 'gen':
         return run_generated(job[1:])
     if kind == 'neg':
@@ -258,6 +301,10 @@ def main():
         for name, rd, sd, layout in cases:
             jobs.append(('neg', idx, name, rd, sd, layout, src))
             idx += 1
+    if ck.want('unity'):
+        for n, usize, how in unity_cases():
+            jobs.append(('unity', idx, n, usize, how))
+            idx += 1
     if ck.want('corpus'):
         dirs = corpus_dirs()
         if not ck.thorough:
@@ -296,7 +343,7 @@ def main():
     ck.assume('ninja grammar and scoping rules come from lib/verif/refninja.py (ninja is not installed)')
     ck.assume('corpus projects that do not configure in this sandbox (missing compilers/dependencies) are outside the quantifier and only counted')
     ck.finish(evaluations=n, distinct_nontrivial=len(classes),
-              rule='all projgen shapes of <= 3 targets x placements x %s layout/default_library/unity combos; %d collision cases (single declarations with forbidden/reserved names and ordered pairs '
+              rule='all projgen shapes of <= 3 targets x placements x %s layout/default_library/unity combos; unity builds with 1..9 sources x unity_size {2,4} x 4 ways of consuming the objects; %d collision cases (single declarations with forbidden/reserved names and ordered pairs '
                    'with colliding outputs, mirror and flat layout); %s of the test corpus under test cases/{common,unit,native,linuxlike}. Oracle: setup fails with a MesonException, or build.ninja '
                    'parses, has no duplicate outputs / unknown rules / cycles / dangling inputs and default/test targets are reachable. distinct_nontrivial = distinct (kind, outcome, size bucket).'
                    % ('all 18' if ck.thorough else '1 of 18 (rotated)', len(collision_cases()[1]), 'all' if ck.thorough else 'a quarter (rotated by VERIF_SEED)'),
